@@ -96,6 +96,11 @@
 (*                    call -- then an observer freezes the type before a   *)
 (*                    later SetField and ObserverTransparent fails (vacuity *)
 (*                    guard, IRStateLazyType.cfg).                         *)
+(*   HeaderBeforeAssign  FALSE = the code (Func.LLString numbers the locals *)
+(*                    and then renders header and body); TRUE = the header *)
+(*                    is rendered before AssignIDs, so unnamed parameters  *)
+(*                    show the ids of the previous print: the first print  *)
+(*                    of (i32, i32) reads (i32 %0, i32 %0) (vacuity guard). *)
 (*   AllocaRefresh    when InstAlloca.Type() recomputes its cached Typ:    *)
 (*                    "fields" = whenever AddrSpace or ElemType no longer  *)
 (*                    match (required: the type follows the fields, no     *)
@@ -122,7 +127,11 @@
 (*                        the same module, differently labelled.           *)
 (*                        ObserverTransparentLiteral (exact IDs) is stated *)
 (*                        too and is violated by the code as it is.        *)
-(*   PrintTwiceSame       a second print gives exactly the same (C14)      *)
+(*   PrintTwiceSame       a second print gives exactly the same (C14);     *)
+(*                        PrintFuncTwiceSame, PrintBlockTwiceSame: the same *)
+(*                        of Func.LLString and Block.LLString              *)
+(*   PrintFuncIsPart      after a module print, Func.LLString of each      *)
+(*                        function is that function's part of the text     *)
 (*                                                                         *)
 (* BOUNDS  the structure bounds make the object graph finite; MaxCalls = 0 *)
 (* explores it without bounding the history (closed model, any number of   *)
@@ -145,6 +154,8 @@ EXTENDS Numbering, TLC, Json, IOUtils
 CONSTANTS ValidateOnPrint,   \* TRUE = pinned tree, FALSE = as required
           EagerType,         \* TRUE = constructors compute Typ (the code)
           MdVariant,         \* "code" | "one-pass"
+          HeaderBeforeAssign,\* FALSE = the code: Func.LLString numbers the locals, then renders the header;
+                             \* TRUE = the header (name, parameters) is rendered before AssignIDs
           AllocaRefresh,     \* "fields" | "addrspace" | "never": when InstAlloca.Type() recomputes Typ
           MaxCalls,          \* bound on Len(hist); 0 = unbounded (structure bounds only)
           Groups,            \* groups NewGlobal may append to: subset of {"globals","aliases","ifuncs"}
@@ -335,7 +346,9 @@ PrintFuncW(w, f, validate) ==
      ELSE LET w2 == TouchBlocks(w1, f, w1.fn[f].blocks) IN
           IF MissingTerm(a.f) THEN [w |-> w2, out |-> Panic("no-term")]
           ELSE [w |-> w2,
-                out |-> Ok(FuncText(w2.gl.funcs[f], w2.fn[f]),
+                out |-> Ok(IF HeaderBeforeAssign
+                           THEN <<Tok(w.gl.funcs[f])>> \o Toks(w.fn[f].params) \o BlocksText(w2.fn[f].blocks)
+                           ELSE FuncText(w2.gl.funcs[f], w2.fn[f]),
                            FuncTy(w2.gl.funcs[f]) \o BlocksTy(w2, f, w2.fn[f].blocks),
                            BlocksAtt(w2, w2.fn[f].blocks))]
 
@@ -624,6 +637,22 @@ ObserverTransparentStep ==
 ObserverTransparentLiteral == PrintOf(World).out = PrintOf(twin).out
 \* C14: printing twice in a row yields identical text
 PrintTwiceSame == LET r == PrintOf(World) IN PrintOf(r.w).out = r.out
+
+\* C14: every printing observer, called twice in a row, returns the same
+PrintFuncTwiceSame ==
+  \A f \in 1..Len(fn) : LET r == PrintFuncW(World, f, ValidateOnPrint)
+                         IN PrintFuncW(r.w, f, ValidateOnPrint).out = r.out
+PrintBlockTwiceSame ==
+  \A f \in 1..Len(fn) : \A b \in 1..Len(fn[f].blocks) :
+     LET r == PrintBlockW(World, f, b) IN PrintBlockW(r.w, f, b).out = r.out
+\* C14: once the module has been printed, Func.LLString of each function is that function's
+\* part of the module text (same identifiers, in particular the same parameter numbers)
+RECURSIVE FuncParts(_, _)
+FuncParts(w, f) == IF f > Len(w.fn) THEN <<>>
+                   ELSE PrintFuncW(w, f, ValidateOnPrint).out.text \o FuncParts(w, f + 1)
+PrintFuncIsPart ==
+  LET r == PrintOf(World) IN
+  r.out.ok => r.out.text = Toks(r.w.gl.globals) \o Toks(r.w.gl.aliases) \o Toks(r.w.gl.ifuncs) \o FuncParts(r.w, 1)
 
 \* what the property requires of the final String() of the history
 Ideal(w) == LET o == PrintModuleW(w, FALSE).out IN [ok |-> o.ok, why |-> o.why, text |-> o.text]
